@@ -116,7 +116,8 @@ def gen_step(rng, cell, oid, out, clocks, vname, thr, fault_free):
             'faults': [], 'corrupt': None, 'thr': thr,
             # how the verifier supplies its slack threshold: the global flags with
             # run_auth_scripts, or per call (run_script additional_flags)
-            'via': rng.choice(['global', 'global', 'additional'])}
+            'via': rng.choice(['global', 'global', 'additional']),
+            'gthr': rng.choice([60, 0, 1, 10 ** 6])}
     if not fault_free:
         r = rng.below(10)
         if r == 0:
@@ -371,6 +372,8 @@ def execute(plan, run):
         try:
             if step.get('via') == 'additional':
                 run.probe('threshold_per_call')
+                # ... while the process-wide default says something else
+                F.flags['ts_threshold'] = step.get('gthr', 60)
                 try:
                     _, stk, _ = F.run_script(w.bytes + lock.bytes, {**sf, 'timestamp': step['t']},
                                              additional_flags={'ts_threshold': step['thr']})
